@@ -166,6 +166,7 @@ func (s *scheduler) raise(p interface{}) {
 
 func (i *interpreter) spawn(fr *frame, pos token.Pos, fn value, args []value) {
 	s := i.sched
+	i.path.goroutines++
 	g := &gor{id: len(s.gs), wake: make(chan struct{}, 1)}
 	s.gs = append(s.gs, g)
 	s.wg.Add(1)
